@@ -18,7 +18,7 @@ DENY_SUFFIX = (
     "ops::index::Index::index", "ops::index::IndexMut::index_mut",
     "<impl [T]>::split_at", "<impl [T]>::split_at_mut", "<impl [T]>::copy_from_slice",
     "<impl [T]>::split_first", "RefCell<T>::borrow", "RefCell<T>::borrow_mut",
-    "<impl str>::split_at", "::remove", "::swap_remove", "::insert",
+    "<impl str>::split_at", "Vec::<T, A>::remove", "Vec::<T, A>::swap_remove", "Vec::<T, A>::insert",
 )
 UB_CHECKS = ("NullPointerDereference", "MisalignedPointerDereference")
 
